@@ -54,7 +54,7 @@ func (r Result) Describe() string {
 	return "ok"
 }
 
-var repoRoot = "/repo"
+var repoRoot = envOr("VERIF_REPO", "/repo")
 
 func toCC(a AutoCfg) parser.CommandConfig {
 	cc := parser.CommandConfig{}
